@@ -211,6 +211,13 @@ def rule_OP3(ctx, rep):
         return norm(routes.xp(fn, e, use, pm))
     ww, wo = width(tb, wt[0].args[0], wt[0], pmt), norm(wt[0].args[1])
     sl = rd[0].args[0]
+    if isinstance(sl, ast.Name):
+        # the block is an element enumerated from a generator of slices: (data[i:i+r] for i in range(0, len(data), r))
+        for b_ in routes._context(fb, rd[0], pmf)[0]:
+            if b_.kind == 'iter' and b_.elem == sl.id and b_.src is not None:
+                src_ = routes.xp(fb, b_.src, b_.node, pmf)
+                if isinstance(src_, (ast.GeneratorExp, ast.ListComp)) and len(src_.generators) == 1 and isinstance(src_.elt, ast.Subscript):
+                    sl = src_.elt
     step = None
     for c in iter_nodes(fb.node):
         if isinstance(c, ast.Call) and attr_tail(c.func) == 'range' and len(c.args) == 3:
